@@ -4,9 +4,12 @@ import OrsoVerif.Drv.C03
 import OrsoVerif.Drv.C04
 import OrsoVerif.Drv.C05
 import OrsoVerif.Drv.C06
+import OrsoVerif.Drv.C07
+import OrsoVerif.Drv.C08
 import OrsoVerif.Drv.C09
 import OrsoVerif.Drv.C10
 import OrsoVerif.Drv.C12
+import OrsoVerif.Drv.C15
 import OrsoVerif.Drv.C17
 import OrsoVerif.Drv.C18
 
@@ -19,9 +22,12 @@ def dispatch (prop op : String) (args : List PyVal) : Option (List PyVal) :=
   | "C04" => Drv.C04.handle op args
   | "C05" => Drv.C05.handle op args
   | "C06" => Drv.C06.handle op args
+  | "C07" => Drv.C07.handle op args
+  | "C08" => Drv.C08.handle op args
   | "C09" => Drv.C09.handle op args
   | "C10" => Drv.C10.handle op args
   | "C12" => Drv.C12.handle op args
+  | "C15" => Drv.C15.handle op args
   | "C17" => Drv.C17.handle op args
   | "C18" => Drv.C18.handle op args
   | _ => none
